@@ -179,3 +179,11 @@ impl<TLiteral: Debug + Clone + Eq + Ord> Bdd<TLiteral> {
         (self_lifted, common_inputs)
     }
 }
+
+#[cfg(feature = "verif")]
+impl<TLiteral: Debug + Clone + Eq + Ord> Bdd<TLiteral> {
+    /// Verification hook: the raw input vector, exactly as stored.
+    pub fn verif_raw_inputs(&self) -> &[TLiteral] {
+        &self.inputs
+    }
+}
